@@ -47,8 +47,8 @@ def main():
     all_props = '--all' in args
     jobs = int(args[args.index('--jobs') + 1]) if '--jobs' in args else 2
     tier = args[args.index('--tier') + 1] if '--tier' in args else 'quick'
-    names = [a for a in args if re.match(r'C\d+-[a-d]$', a)]
-    seeds = sorted(d for d in os.listdir(os.path.join(VERIF, 'seeded')) if re.match(r'C\d+-[a-d]$', d))
+    names = [a for a in args if re.match(r'C\d+-[a-h]$', a)]
+    seeds = sorted(d for d in os.listdir(os.path.join(VERIF, 'seeded')) if re.match(r'C\d+-[a-h]$', d))
     if names:
         seeds = [s for s in seeds if s in names]
     claimed = sorted(registry.PROPS)
